@@ -165,3 +165,18 @@ def code_block_argument_contract(macro_def, apply_node, resolver, tok, expected_
     # the block is expanded IN PLACE: the splice opens no scope of its own, so what the block defines is visible to the rest of the macro body
     opened = [n for n in code if isinstance(n, ScopeNode)]
     check("splice_opens_no_scope_of_its_own", len(opened) == expected_scopes)
+
+
+def unselected_definitions_contract(ast, resolver, v, selected_value, default_value):
+    """A `.macro` definition is a statement like any other: written inside a conditional block (or a loop body) it takes effect exactly when that block is
+    assembled -- `.macro put() {.db A}  .if c { .macro put() {.db B} }  put()` emits B when c is non-zero and A otherwise (the DEBUG / RELEASE pattern);
+    inside a loop that runs zero times it takes no effect at all."""
+    from a816.parse.codegen import code_gen
+    code = code_gen(ast, resolver)
+    data = [n for n in code if isinstance(n, ByteNode)]
+    check("one_data_byte", len(data) == 1)
+    got = data[0].value_node.get_value()
+    if v != 0:
+        check("definition_in_the_selected_block_takes_effect", got == selected_value)
+    else:
+        check("definition_in_an_unselected_block_has_no_effect", got == default_value)
